@@ -110,12 +110,10 @@ P["C15"] = dict(level="proof", verus=["v_diff"], kani=[], kani_thorough=[], nati
     level_text="Partly proved, partly bounded: the type comparison the ledger relies on (diff_schema <==> wire_equiv, incl. the Fn/FnMut arm) is proved by Verus for all schema trees; AbiTraitDefinition::verify_backward_compatible is checked against an independent compatibility statement by native small-scope enumeration (BOUNDED: one recorded method, <= 2 arguments, async flag, presence).",
     level_note="verify_compatiblity's file handling and the definition codec at data version 2 are not under contract (two genuine defects there were found by demonstration and fixed). The method-matching loop uses iterator closures outside Verus' subset.",
     technique="Verus contract on diff_schema + bounded native enumeration of verify_backward_compatible", trusted_base=TB)
-P["C05"]["native"] = ["pairs_diff"]
-P["C08"]["native"] = sorted(n for n in nreg if "C08" in nreg[n]["props"])
-P["C07"]["native"] = sorted(n for n in nreg if "C07" in nreg[n]["props"])
-P["C17"]["native"] = sorted(n for n in nreg if "C17" in nreg[n]["props"])
-P["C13"]["native"] = ["pairs_diff"]
-P["C11"]["native"] = ["pairs_layout"]
+for pid in P:
+    nat = sorted(n for n in nreg if pid in nreg[n]["props"])
+    if nat:
+        P[pid]["native"] = sorted(set(P[pid].get("native") or []) | set(nat))
 P["C06"]["verus"].append("v_diff")       # diff_schema runs on untrusted schema bytes during load: no panic / no out-of-bounds
 P["C10"]["verus"].append("v_layout")     # the by-reference decision is part of version tolerance (differently versioned peers)
 json.dump(P, open(os.path.join(ROOT, "checks.json"), "w"), indent=1)
